@@ -34,7 +34,7 @@ def catalogue():
     for ndom in (1, 2, 3, 4):
         for names in (("sync", "pix", "aux", "b"), ("zeta", "alpha", "mid", "b2")):
             for hier in ("flat", "sub", "anon"):
-                for extra in ("none", "mem", "inst", "instclk", "clash", "attrs"):
+                for extra in ("none", "mem", "inst", "instclk", "instonly", "clash", "attrs"):
                     specs.append({"ndom": ndom, "names": names[:ndom], "hier": hier, "extra": extra})
     return specs
 
@@ -87,6 +87,14 @@ def build_design(spec):
         m.d.comb += [total.eq(data + 3), dbg.eq(total), kind.eq(dbg)]
         o = Signal(4, name="oattr")
         m.d.comb += o.eq(kind.as_value())
+        outs.append(o)
+    if spec["extra"] == "instonly":
+        # the instance is the ONLY user of an implicitly created domain (nothing else in the design names it)
+        from amaranth.hdl import ClockSignal, ResetSignal
+        q = Signal(2, name="q")
+        m.submodules.u = Instance("CLKBLK", i_clk=ClockSignal("ipix"), i_rst=ResetSignal("ipix"), i_d=data, o_q=q)
+        o = Signal(2, name="oq")
+        m.d.comb += o.eq(q)
         outs.append(o)
     if spec["extra"] == "instclk":
         # a foreign instance fed with the clock and reset of an implicitly created domain; the Instance object belongs to the design object
